@@ -50,7 +50,7 @@ func WorkerMain(args []string) int {
 	if err == nil {
 		c.journal = j
 	}
-	limit := 120 * time.Second
+	limit := 300 * time.Second // a case normally takes milliseconds; generous because a forced GC can wait minutes on a saturated machine
 	if v := os.Getenv("VERIF_CASE_TIMEOUT_S"); v != "" {
 		if n, err := strconv.Atoi(v); err == nil {
 			limit = time.Duration(n) * time.Second
